@@ -245,7 +245,7 @@ def _add_comments(fd, salt):
     for i, m in enumerate(fd.message_type):
         loc([4, i], f"The {m.name} message")
         for j, f in enumerate(m.field):
-            loc([4, i, 2, j], f"The {f.name} of a {m.name}")
+            loc([4, i, 2, j], f"The `{f.name}` of a {m.name} (see [{m.name}][])")      # markup: goes through pandoc
     for i, e in enumerate(fd.enum_type):
         loc([5, i], f"The {e.name} enum")
     for i, s in enumerate(fd.service):
